@@ -167,11 +167,16 @@ def genItem (g : G) (last : Bool) : G × Item :=
     (g, .ascii (flag = 1) b)
   | 1 | 2 =>
     let text := kind = 2
-    let (g, b) := genBytes g (n + 1) c40ish
+    -- one run in eight uses only the extreme basic-set values (39 = 'Z', 3 = space, 4 = '0'), so that whole
+    -- triples of the largest / smallest values (packed 64000 = (250, 0), 4965, ...) occur at triple boundaries
+    let (g, ext) := g.below 8
+    let (g, b) := genBytes g (n + 1) (if ext = 0 then fun v => [90, 90, 90, 32, 48, 90, 65].getD (v % 7) 90 else c40ish)
     let b := cutTriples text (if text then b.map fun x => if 65 ≤ x % 128 ∧ x % 128 ≤ 90 then x + 32 else x else b)
     (g, .c40 text b (flag = 1 || !last))
   | 3 =>
-    let (g, b) := genBytes g (3 * (n / 3 + 1)) fun v => [13, 42, 62, 32, 48 + v / 7 % 10, 65 + v / 7 % 26, 65 + v / 11 % 26].getD (v % 7) 32
+    let (g, ext) := g.below 8
+    let (g, b) := genBytes g (3 * (n / 3 + 1)) (if ext = 0 then fun v => [90, 90, 90, 13, 90, 13, 90].getD (v % 7) 90
+      else fun v => [13, 42, 62, 32, 48 + v / 7 % 10, 65 + v / 7 % 26, 65 + v / 11 % 26].getD (v % 7) 32)
     (g, .x12 b (flag = 1 || !last))
   | 4 =>
     let un := flag = 1 || !last
@@ -228,10 +233,15 @@ def fitScript (g : G) (s : Script) : G × Option Script :=
   let len := (build s1).length
   -- an EDIFACT group must not start with fewer than three codewords left in the symbol (those
   -- would be ASCII): keep two spare codewords when the stream is padded anyway
-  match capacities.find? (· ≥ (if exact then len else len + 2)) with
+  -- every other padded script is instead fitted tightly: the smallest capacity that holds it (0 or 1 pad
+  -- codewords are possible), and half of those are filled up at the front so that a run with an explicit
+  -- end (ASCII, UNLATCH, Base 256 with a length) ends exactly with the symbol. A script for which this
+  -- breaks the EDIFACT rule is one on which reference builder and reference decoder disagree: dropped.
+  let (g, tight) := g.below 4
+  match capacities.find? (· ≥ (if exact || tight < 2 then len else len + 2)) with
   | none => (g, none)
   | some cap =>
-    if exact then
+    if exact || tight = 0 then
       if cap = len then (g, some s1)
       else
         -- fill up at the front with ASCII letters (one codeword each)
